@@ -536,8 +536,20 @@ fn codec_mode(inp: &str, outp: &str) -> std::io::Result<()> {
                 let back_s = disp_s.parse::<SpanId>().ok().map(|x| hex16(x.0));
                 let ser_t = serde_json::to_string(&TraceId(t)).unwrap_or_default();
                 let ser_s = serde_json::to_string(&SpanId(s)).unwrap_or_default();
-                let de_t = serde_json::from_str::<TraceId>(&ser_t).ok().map(|x| hex32(x.0));
-                let de_s = serde_json::from_str::<SpanId>(&ser_s).ok().map(|x| hex16(x.0));
+                // through a borrowing deserializer, through an owned value, and through a reader
+                let all_t = [
+                    serde_json::from_str::<TraceId>(&ser_t).ok(),
+                    serde_json::from_value::<TraceId>(Value::String(disp_t.clone())).ok(),
+                    serde_json::from_reader::<_, TraceId>(ser_t.as_bytes()).ok(),
+                ];
+                let all_s = [
+                    serde_json::from_str::<SpanId>(&ser_s).ok(),
+                    serde_json::from_value::<SpanId>(Value::String(disp_s.clone())).ok(),
+                    serde_json::from_reader::<_, SpanId>(ser_s.as_bytes()).ok(),
+                ];
+                let de_t = if all_t.iter().all(|x| x.is_some()) { all_t[0].map(|x| hex32(x.0)) } else { None };
+                let de_s = if all_s.iter().all(|x| x.is_some() && *x == all_s[0]) { all_s[0].map(|x| hex16(x.0)) } else { None };
+                let de_t = if all_t.iter().all(|x| *x == all_t[0]) { de_t } else { None };
                 writeln!(out, "{}", json!({"ev":"roundtrip","id":case["id"],"trace":hex32(t),"span":hex16(s),"smp":smp,
                     "enc":chars(&enc),"enclen":enc.chars().count(),
                     "dec": dec.map(|c| json!({"some":true,"trace":hex32(c.trace_id.0),"span":hex16(c.span_id.0),"smp":c.sampled})).unwrap_or(json!({"some":false})),
